@@ -273,10 +273,22 @@ impl Inner {
     }
 }
 
+/// Is the thread asleep inside a futex wait?  Both conditions are needed: a thread that has been
+/// woken but has not been given a CPU yet (loaded machine) still shows the futex system call, but
+/// its state is R (runnable), not S (sleeping).
 fn tid_in_futex(tid: i32) -> bool {
-    let p = format!("/proc/self/task/{}/syscall", tid);
-    match std::fs::read(&p) {
+    let sys = match std::fs::read(format!("/proc/self/task/{}/syscall", tid)) {
         Ok(b) => b.starts_with(b"202 ") || b.starts_with(b"449 "), // futex, futex_waitv
+        Err(_) => false,
+    };
+    if !sys {
+        return false;
+    }
+    match std::fs::read(format!("/proc/self/task/{}/stat", tid)) {
+        Ok(b) => match b.iter().rposition(|c| *c == b')') {
+            Some(i) => b.get(i + 2) == Some(&b'S'),
+            None => false,
+        },
         Err(_) => false,
     }
 }
@@ -465,8 +477,8 @@ pub fn run_baton(job: Job, strategy: Strategy, watchdog_ms: u64) -> ExecTrace {
                 }
                 if all_in_futex {
                     stuck_rounds += 1;
-                    if stuck_rounds >= 100 {
-                        // 20 ms of every live thread sitting in a futex wait with nobody to wake it
+                    if stuck_rounds >= 1000 {
+                        // 200 ms of every live thread asleep in a futex wait with nobody to wake it
                         let who: Vec<String> = (0..n)
                             .filter(|i| !g.slots[*i].finished.load(Ordering::Acquire))
                             .map(|i| format!("worker {}", i))
@@ -594,9 +606,9 @@ pub fn run_free(job: Job, seed: u64, max_sleep_us: u64, watchdog_ms: u64) -> Res
         });
         if all_futex && progress == last_progress {
             stuck += 1;
-            if stuck >= 150 {
-                // 300 ms without a single event while every live thread waits for a lock
-                break Err("every unfinished worker is blocked on a lock and nothing has moved for 300 ms".to_string());
+            if stuck >= 500 {
+                // one second without a single event while every live thread sleeps on a lock
+                break Err("every unfinished worker is blocked on a lock and nothing has moved for 1 s".to_string());
             }
         } else {
             stuck = 0;
